@@ -11,6 +11,7 @@
 #include VX_OPH
 #include <cmath>
 #include <cstring>
+#include <climits>
 #include <limits>
 using namespace vx;
 
@@ -76,6 +77,23 @@ extern "C" void vx_binop()
   static Context& ctx = *new Context(1, 2);
   Opd A, B;
   mk(A, VX_A, 0); mk(B, VX_B, 1);
+  {
+    bool iinn = (VX_A == K_INTEGER && VX_B == K_INTEGER) && !A.isnull && !B.isnull;
+    long tmp;
+    (void)iinn; (void)tmp;
+#if VX_ORACLE == ORC_ADD
+    verif_known(KF_INT_ADD_SUB_MUL_OVERFLOW_UB, iinn && __builtin_add_overflow(A.i, B.i, &tmp));
+#elif VX_ORACLE == ORC_SUB
+    verif_known(KF_INT_ADD_SUB_MUL_OVERFLOW_UB, iinn && __builtin_sub_overflow(A.i, B.i, &tmp));
+#elif VX_ORACLE == ORC_MUL
+    verif_known(KF_INT_ADD_SUB_MUL_OVERFLOW_UB, iinn && __builtin_mul_overflow(A.i, B.i, &tmp));
+#elif VX_ORACLE == ORC_DIV || VX_ORACLE == ORC_MOD
+    verif_known(KF_INT_DIVMOD_MIN_BY_MINUS1, iinn && A.i == INT64_MIN && B.i == -1);
+#elif VX_ORACLE == ORC_SHL || VX_ORACLE == ORC_SHR
+    /* C implementation: a << d / a >> d. UB for d outside [0,63] (and for << on negative a); >> is arithmetic for negative a */
+    verif_known(KF_SHIFT_NOT_AS_DOCUMENTED, iinn && (B.i < 0 || B.i > 63 || A.i < 0));
+#endif
+  }
   SymExpr* e1 = new SymExpr(A.v); SymExpr* e2 = new SymExpr(B.v);
   VX_OP* op = new VX_OP(e1, e2);
   Type st = op->type(ctx);        // static type, computed from the children's static types (= their dynamic ones: induction hypothesis)
